@@ -977,4 +977,138 @@ Definition U_OverflowingSub_overflowing_sub (w : Z) (self : list Z) (rhs : list 
 Definition I_OverflowingSub_overflowing_sub (w : Z) (self : list Z) (rhs : list Z) : (list Z * bool) :=
   AddSub.I_overflowing_sub w self rhs.
 
+(* ---- src/int/ops.rs: expansions of shift_impl! (defined in src/int/ops.rs) ---- *)
+Definition U_Shl_u8_shl (dbg : bool) (w : Z) (self : list Z) (rhs : Z) : outcome (list Z) :=
+  Shift.U_shl dbg w self rhs.
+
+Definition I_Shl_u8_shl (dbg : bool) (w : Z) (self : list Z) (rhs : Z) : outcome (list Z) :=
+  Shift.I_shl dbg w self rhs.
+
+Definition U_Shl_u16_shl (dbg : bool) (w : Z) (self : list Z) (rhs : Z) : outcome (list Z) :=
+  Shift.U_shl dbg w self rhs.
+
+Definition I_Shl_u16_shl (dbg : bool) (w : Z) (self : list Z) (rhs : Z) : outcome (list Z) :=
+  Shift.I_shl dbg w self rhs.
+
+Definition U_Shr_u8_shr (dbg : bool) (w : Z) (self : list Z) (rhs : Z) : outcome (list Z) :=
+  Shift.U_shr dbg w self rhs.
+
+Definition I_Shr_u8_shr (dbg : bool) (w : Z) (self : list Z) (rhs : Z) : outcome (list Z) :=
+  Shift.I_shr dbg w self rhs.
+
+Definition U_Shr_u16_shr (dbg : bool) (w : Z) (self : list Z) (rhs : Z) : outcome (list Z) :=
+  Shift.U_shr dbg w self rhs.
+
+Definition I_Shr_u16_shr (dbg : bool) (w : Z) (self : list Z) (rhs : Z) : outcome (list Z) :=
+  Shift.I_shr dbg w self rhs.
+
+(* ---- src/int/ops.rs: expansions of try_shift_impl! (defined in src/int/ops.rs) ---- *)
+Definition U_Shl_i8_shl (dbg : bool) (w : Z) (self : list Z) (rhs : Z) : outcome (list Z) :=
+  obind (if dbg then (Core.option_expect (if andb (Z.leb 0 rhs) (Z.leb rhs u32_max) then Some rhs else None)) else (Ret (Z.modulo rhs (2 ^ 32)))) (fun (rhs : Z) => (Shift.U_shl dbg w self rhs)).
+
+Definition I_Shl_i8_shl (dbg : bool) (w : Z) (self : list Z) (rhs : Z) : outcome (list Z) :=
+  obind (if dbg then (Core.option_expect (if andb (Z.leb 0 rhs) (Z.leb rhs u32_max) then Some rhs else None)) else (Ret (Z.modulo rhs (2 ^ 32)))) (fun (rhs : Z) => (Shift.I_shl dbg w self rhs)).
+
+Definition U_Shl_i16_shl (dbg : bool) (w : Z) (self : list Z) (rhs : Z) : outcome (list Z) :=
+  obind (if dbg then (Core.option_expect (if andb (Z.leb 0 rhs) (Z.leb rhs u32_max) then Some rhs else None)) else (Ret (Z.modulo rhs (2 ^ 32)))) (fun (rhs : Z) => (Shift.U_shl dbg w self rhs)).
+
+Definition I_Shl_i16_shl (dbg : bool) (w : Z) (self : list Z) (rhs : Z) : outcome (list Z) :=
+  obind (if dbg then (Core.option_expect (if andb (Z.leb 0 rhs) (Z.leb rhs u32_max) then Some rhs else None)) else (Ret (Z.modulo rhs (2 ^ 32)))) (fun (rhs : Z) => (Shift.I_shl dbg w self rhs)).
+
+Definition U_Shl_i32_shl (dbg : bool) (w : Z) (self : list Z) (rhs : Z) : outcome (list Z) :=
+  obind (if dbg then (Core.option_expect (if andb (Z.leb 0 rhs) (Z.leb rhs u32_max) then Some rhs else None)) else (Ret (Z.modulo rhs (2 ^ 32)))) (fun (rhs : Z) => (Shift.U_shl dbg w self rhs)).
+
+Definition I_Shl_i32_shl (dbg : bool) (w : Z) (self : list Z) (rhs : Z) : outcome (list Z) :=
+  obind (if dbg then (Core.option_expect (if andb (Z.leb 0 rhs) (Z.leb rhs u32_max) then Some rhs else None)) else (Ret (Z.modulo rhs (2 ^ 32)))) (fun (rhs : Z) => (Shift.I_shl dbg w self rhs)).
+
+Definition U_Shl_isize_shl (dbg : bool) (w : Z) (self : list Z) (rhs : Z) : outcome (list Z) :=
+  obind (if dbg then (Core.option_expect (if andb (Z.leb 0 rhs) (Z.leb rhs u32_max) then Some rhs else None)) else (Ret (Z.modulo rhs (2 ^ 32)))) (fun (rhs : Z) => (Shift.U_shl dbg w self rhs)).
+
+Definition I_Shl_isize_shl (dbg : bool) (w : Z) (self : list Z) (rhs : Z) : outcome (list Z) :=
+  obind (if dbg then (Core.option_expect (if andb (Z.leb 0 rhs) (Z.leb rhs u32_max) then Some rhs else None)) else (Ret (Z.modulo rhs (2 ^ 32)))) (fun (rhs : Z) => (Shift.I_shl dbg w self rhs)).
+
+Definition U_Shl_i64_shl (dbg : bool) (w : Z) (self : list Z) (rhs : Z) : outcome (list Z) :=
+  obind (if dbg then (Core.option_expect (if andb (Z.leb 0 rhs) (Z.leb rhs u32_max) then Some rhs else None)) else (Ret (Z.modulo rhs (2 ^ 32)))) (fun (rhs : Z) => (Shift.U_shl dbg w self rhs)).
+
+Definition I_Shl_i64_shl (dbg : bool) (w : Z) (self : list Z) (rhs : Z) : outcome (list Z) :=
+  obind (if dbg then (Core.option_expect (if andb (Z.leb 0 rhs) (Z.leb rhs u32_max) then Some rhs else None)) else (Ret (Z.modulo rhs (2 ^ 32)))) (fun (rhs : Z) => (Shift.I_shl dbg w self rhs)).
+
+Definition U_Shl_i128_shl (dbg : bool) (w : Z) (self : list Z) (rhs : Z) : outcome (list Z) :=
+  obind (if dbg then (Core.option_expect (if andb (Z.leb 0 rhs) (Z.leb rhs u32_max) then Some rhs else None)) else (Ret (Z.modulo rhs (2 ^ 32)))) (fun (rhs : Z) => (Shift.U_shl dbg w self rhs)).
+
+Definition I_Shl_i128_shl (dbg : bool) (w : Z) (self : list Z) (rhs : Z) : outcome (list Z) :=
+  obind (if dbg then (Core.option_expect (if andb (Z.leb 0 rhs) (Z.leb rhs u32_max) then Some rhs else None)) else (Ret (Z.modulo rhs (2 ^ 32)))) (fun (rhs : Z) => (Shift.I_shl dbg w self rhs)).
+
+Definition U_Shl_usize_shl (dbg : bool) (w : Z) (self : list Z) (rhs : Z) : outcome (list Z) :=
+  obind (if dbg then (Core.option_expect (if andb (Z.leb 0 rhs) (Z.leb rhs u32_max) then Some rhs else None)) else (Ret (Z.modulo rhs (2 ^ 32)))) (fun (rhs : Z) => (Shift.U_shl dbg w self rhs)).
+
+Definition I_Shl_usize_shl (dbg : bool) (w : Z) (self : list Z) (rhs : Z) : outcome (list Z) :=
+  obind (if dbg then (Core.option_expect (if andb (Z.leb 0 rhs) (Z.leb rhs u32_max) then Some rhs else None)) else (Ret (Z.modulo rhs (2 ^ 32)))) (fun (rhs : Z) => (Shift.I_shl dbg w self rhs)).
+
+Definition U_Shl_u64_shl (dbg : bool) (w : Z) (self : list Z) (rhs : Z) : outcome (list Z) :=
+  obind (if dbg then (Core.option_expect (if andb (Z.leb 0 rhs) (Z.leb rhs u32_max) then Some rhs else None)) else (Ret (Z.modulo rhs (2 ^ 32)))) (fun (rhs : Z) => (Shift.U_shl dbg w self rhs)).
+
+Definition I_Shl_u64_shl (dbg : bool) (w : Z) (self : list Z) (rhs : Z) : outcome (list Z) :=
+  obind (if dbg then (Core.option_expect (if andb (Z.leb 0 rhs) (Z.leb rhs u32_max) then Some rhs else None)) else (Ret (Z.modulo rhs (2 ^ 32)))) (fun (rhs : Z) => (Shift.I_shl dbg w self rhs)).
+
+Definition U_Shl_u128_shl (dbg : bool) (w : Z) (self : list Z) (rhs : Z) : outcome (list Z) :=
+  obind (if dbg then (Core.option_expect (if andb (Z.leb 0 rhs) (Z.leb rhs u32_max) then Some rhs else None)) else (Ret (Z.modulo rhs (2 ^ 32)))) (fun (rhs : Z) => (Shift.U_shl dbg w self rhs)).
+
+Definition I_Shl_u128_shl (dbg : bool) (w : Z) (self : list Z) (rhs : Z) : outcome (list Z) :=
+  obind (if dbg then (Core.option_expect (if andb (Z.leb 0 rhs) (Z.leb rhs u32_max) then Some rhs else None)) else (Ret (Z.modulo rhs (2 ^ 32)))) (fun (rhs : Z) => (Shift.I_shl dbg w self rhs)).
+
+Definition U_Shr_i8_shr (dbg : bool) (w : Z) (self : list Z) (rhs : Z) : outcome (list Z) :=
+  obind (if dbg then (Core.option_expect (if andb (Z.leb 0 rhs) (Z.leb rhs u32_max) then Some rhs else None)) else (Ret (Z.modulo rhs (2 ^ 32)))) (fun (rhs : Z) => (Shift.U_shr dbg w self rhs)).
+
+Definition I_Shr_i8_shr (dbg : bool) (w : Z) (self : list Z) (rhs : Z) : outcome (list Z) :=
+  obind (if dbg then (Core.option_expect (if andb (Z.leb 0 rhs) (Z.leb rhs u32_max) then Some rhs else None)) else (Ret (Z.modulo rhs (2 ^ 32)))) (fun (rhs : Z) => (Shift.I_shr dbg w self rhs)).
+
+Definition U_Shr_i16_shr (dbg : bool) (w : Z) (self : list Z) (rhs : Z) : outcome (list Z) :=
+  obind (if dbg then (Core.option_expect (if andb (Z.leb 0 rhs) (Z.leb rhs u32_max) then Some rhs else None)) else (Ret (Z.modulo rhs (2 ^ 32)))) (fun (rhs : Z) => (Shift.U_shr dbg w self rhs)).
+
+Definition I_Shr_i16_shr (dbg : bool) (w : Z) (self : list Z) (rhs : Z) : outcome (list Z) :=
+  obind (if dbg then (Core.option_expect (if andb (Z.leb 0 rhs) (Z.leb rhs u32_max) then Some rhs else None)) else (Ret (Z.modulo rhs (2 ^ 32)))) (fun (rhs : Z) => (Shift.I_shr dbg w self rhs)).
+
+Definition U_Shr_i32_shr (dbg : bool) (w : Z) (self : list Z) (rhs : Z) : outcome (list Z) :=
+  obind (if dbg then (Core.option_expect (if andb (Z.leb 0 rhs) (Z.leb rhs u32_max) then Some rhs else None)) else (Ret (Z.modulo rhs (2 ^ 32)))) (fun (rhs : Z) => (Shift.U_shr dbg w self rhs)).
+
+Definition I_Shr_i32_shr (dbg : bool) (w : Z) (self : list Z) (rhs : Z) : outcome (list Z) :=
+  obind (if dbg then (Core.option_expect (if andb (Z.leb 0 rhs) (Z.leb rhs u32_max) then Some rhs else None)) else (Ret (Z.modulo rhs (2 ^ 32)))) (fun (rhs : Z) => (Shift.I_shr dbg w self rhs)).
+
+Definition U_Shr_isize_shr (dbg : bool) (w : Z) (self : list Z) (rhs : Z) : outcome (list Z) :=
+  obind (if dbg then (Core.option_expect (if andb (Z.leb 0 rhs) (Z.leb rhs u32_max) then Some rhs else None)) else (Ret (Z.modulo rhs (2 ^ 32)))) (fun (rhs : Z) => (Shift.U_shr dbg w self rhs)).
+
+Definition I_Shr_isize_shr (dbg : bool) (w : Z) (self : list Z) (rhs : Z) : outcome (list Z) :=
+  obind (if dbg then (Core.option_expect (if andb (Z.leb 0 rhs) (Z.leb rhs u32_max) then Some rhs else None)) else (Ret (Z.modulo rhs (2 ^ 32)))) (fun (rhs : Z) => (Shift.I_shr dbg w self rhs)).
+
+Definition U_Shr_i64_shr (dbg : bool) (w : Z) (self : list Z) (rhs : Z) : outcome (list Z) :=
+  obind (if dbg then (Core.option_expect (if andb (Z.leb 0 rhs) (Z.leb rhs u32_max) then Some rhs else None)) else (Ret (Z.modulo rhs (2 ^ 32)))) (fun (rhs : Z) => (Shift.U_shr dbg w self rhs)).
+
+Definition I_Shr_i64_shr (dbg : bool) (w : Z) (self : list Z) (rhs : Z) : outcome (list Z) :=
+  obind (if dbg then (Core.option_expect (if andb (Z.leb 0 rhs) (Z.leb rhs u32_max) then Some rhs else None)) else (Ret (Z.modulo rhs (2 ^ 32)))) (fun (rhs : Z) => (Shift.I_shr dbg w self rhs)).
+
+Definition U_Shr_i128_shr (dbg : bool) (w : Z) (self : list Z) (rhs : Z) : outcome (list Z) :=
+  obind (if dbg then (Core.option_expect (if andb (Z.leb 0 rhs) (Z.leb rhs u32_max) then Some rhs else None)) else (Ret (Z.modulo rhs (2 ^ 32)))) (fun (rhs : Z) => (Shift.U_shr dbg w self rhs)).
+
+Definition I_Shr_i128_shr (dbg : bool) (w : Z) (self : list Z) (rhs : Z) : outcome (list Z) :=
+  obind (if dbg then (Core.option_expect (if andb (Z.leb 0 rhs) (Z.leb rhs u32_max) then Some rhs else None)) else (Ret (Z.modulo rhs (2 ^ 32)))) (fun (rhs : Z) => (Shift.I_shr dbg w self rhs)).
+
+Definition U_Shr_usize_shr (dbg : bool) (w : Z) (self : list Z) (rhs : Z) : outcome (list Z) :=
+  obind (if dbg then (Core.option_expect (if andb (Z.leb 0 rhs) (Z.leb rhs u32_max) then Some rhs else None)) else (Ret (Z.modulo rhs (2 ^ 32)))) (fun (rhs : Z) => (Shift.U_shr dbg w self rhs)).
+
+Definition I_Shr_usize_shr (dbg : bool) (w : Z) (self : list Z) (rhs : Z) : outcome (list Z) :=
+  obind (if dbg then (Core.option_expect (if andb (Z.leb 0 rhs) (Z.leb rhs u32_max) then Some rhs else None)) else (Ret (Z.modulo rhs (2 ^ 32)))) (fun (rhs : Z) => (Shift.I_shr dbg w self rhs)).
+
+Definition U_Shr_u64_shr (dbg : bool) (w : Z) (self : list Z) (rhs : Z) : outcome (list Z) :=
+  obind (if dbg then (Core.option_expect (if andb (Z.leb 0 rhs) (Z.leb rhs u32_max) then Some rhs else None)) else (Ret (Z.modulo rhs (2 ^ 32)))) (fun (rhs : Z) => (Shift.U_shr dbg w self rhs)).
+
+Definition I_Shr_u64_shr (dbg : bool) (w : Z) (self : list Z) (rhs : Z) : outcome (list Z) :=
+  obind (if dbg then (Core.option_expect (if andb (Z.leb 0 rhs) (Z.leb rhs u32_max) then Some rhs else None)) else (Ret (Z.modulo rhs (2 ^ 32)))) (fun (rhs : Z) => (Shift.I_shr dbg w self rhs)).
+
+Definition U_Shr_u128_shr (dbg : bool) (w : Z) (self : list Z) (rhs : Z) : outcome (list Z) :=
+  obind (if dbg then (Core.option_expect (if andb (Z.leb 0 rhs) (Z.leb rhs u32_max) then Some rhs else None)) else (Ret (Z.modulo rhs (2 ^ 32)))) (fun (rhs : Z) => (Shift.U_shr dbg w self rhs)).
+
+Definition I_Shr_u128_shr (dbg : bool) (w : Z) (self : list Z) (rhs : Z) : outcome (list Z) :=
+  obind (if dbg then (Core.option_expect (if andb (Z.leb 0 rhs) (Z.leb rhs u32_max) then Some rhs else None)) else (Ret (Z.modulo rhs (2 ^ 32)))) (fun (rhs : Z) => (Shift.I_shr dbg w self rhs)).
+
 End Glue.
